@@ -213,14 +213,35 @@ def check(chk):
     if len(dn) != 1 or len(sl) != 1 or len(up) != 1:
         raise AnalysisError('_update_location_info: on_down / set_location_info / on_up statements not recognised (%d/%d/%d)' % (len(dn), len(sl), len(up)))
     unchanged = 'host.datacenter == datacenter and host.rack == rack'
+    # stage along a path: nothing yet -> on_down -> set_location_info -> on_up; what each return reports is read per path (a literal, or a local whose value the facts know)
+    from ..cfg import Flow as _Flow42
+
+    def _stage(n, c):
+        if n is dn[0]:
+            return 'down' if c == 'start' else 'bad'
+        if n is sl[0]:
+            return 'set' if c == 'down' else 'bad'
+        if n is up[0]:
+            return 'up' if c == 'set' else 'bad'
+        return c
+    fs_ = _Flow42(gu, 'start', _stage)
     rets = [n for n in gu.stmt_nodes() if n.kind == 'return']
-    rf_ = [n for n in rets if src(n.ast.value) == 'False']
-    rt_ = [n for n in rets if src(n.ast.value) == 'True']
-    same_known = lambda n, v: bool(list(flu.at(n))) and all(fa.knows('host.datacenter == datacenter') is v and fa.knows('host.rack == rack') is v for fa, _c in flu.at(n))
-    not_same = lambda n: bool(list(flu.at(n))) and all(fa.knows('host.datacenter == datacenter') is False or fa.knows('host.rack == rack') is False for fa, _c in flu.at(n))
-    good = len(rets) == len(rf_) + len(rt_) and rf_ and rt_ and all(same_known(n, True) for n in rf_) and all(not_same(n) for n in rt_ + dn + sl)
-    # order along every path: on_down, then set_location_info, then (when not down) on_up; changed paths all pass through the first two
-    order_ok = gu.dominates(dn[0], sl[0]) and gu.dominates(sl[0], up[0]) and all(gu.dominates(sl[0], n) for n in rt_)
+    good, order_ok = bool(rets), True
+    for n in rets:
+        for fa, stg in fs_.at(n):
+            v = n.ast.value
+            truth = v.value if isinstance(v, ast.Constant) and isinstance(v.value, bool) else (fa.value(src(v)) if v is not None else None)
+            same = fa.value(unchanged)
+            if truth is False:
+                good = good and same is True and stg == 'start'
+            elif truth is True:
+                good = good and same is False
+                order_ok = order_ok and stg in ('set', 'up')
+            else:
+                good = False
+    for n in dn + sl:
+        good = good and bool(list(fs_.at(n))) and all(fa.value(unchanged) is False for fa, _c in fs_.at(n))
+    order_ok = order_ok and all(c_ != 'bad' for n in rets + dn + sl + up for _f, c_ in fs_.at(n))
     chk.judge(bool(good) and order_ok, 'C42.location', ul_, 'unchanged -> False; changed -> on_down, set_location_info, on_up, True',
               '_update_location_info changed: %s' % [src(x) for x in ul_.body][-4:])
     # a host that is marked down is not handed back to the policies as live by a location change
